@@ -695,3 +695,7 @@ def replay(run, data) -> None:
         bsp_engine(run, False)
     run.case(case, True, sample=case, tag='replay')
     run.case('pad', True)
+
+
+# (kept at the end of the file so that the text above stays the description the check was first built to)
+RULE += ' ' + 'Later additions: KeyboardInterrupt / MemoryError injected at every boundary; read-only (0o444 / 0o400) destinations; a text writer with an unknown encoding (failure inside __enter__); interleavings in which writer A is a reused object; files that were in the directory before the writer started must still be there afterwards.'
